@@ -256,10 +256,59 @@ func createCompiledRouteHandler(route *ast.Route, bytecode []byte, wsHub *websoc
 			return json.NewEncoder(ctx.ResponseWriter).Encode(body)
 		}
 
+		// Check the value against the declared return type, as the
+		// interpreter does (status-carrying results are exempt there too).
+		if err := validateCompiledReturn(route, result); err != nil {
+			return writeInternalError(ctx, err)
+		}
+
 		// Set response
 		ctx.StatusCode = http.StatusOK
 		ctx.ResponseWriter.Header().Set("Content-Type", "application/json")
 		return json.NewEncoder(ctx.ResponseWriter).Encode(result)
+	}
+}
+
+// validateCompiledReturn checks a compiled route's result against the route's
+// declared return type with the interpreter's type checker.
+func validateCompiledReturn(route *ast.Route, result vm.Value) error {
+	if route.ReturnType == nil {
+		return nil
+	}
+	checker := interpreter.NewTypeChecker()
+	checker.SetTypeDefs(compiledTypeDefs)
+	if err := checker.CheckType(valueToInterface(result), route.ReturnType); err != nil {
+		return fmt.Errorf("return type mismatch in route %s %s: %v", route.Method, route.Path, err)
+	}
+	return nil
+}
+
+// valueToInterface converts a VM value to the plain Go value the type checker
+// works on (the inverse of interfaceToValue).
+func valueToInterface(v vm.Value) interface{} {
+	switch val := v.(type) {
+	case vm.IntValue:
+		return val.Val
+	case vm.FloatValue:
+		return val.Val
+	case vm.StringValue:
+		return val.Val
+	case vm.BoolValue:
+		return val.Val
+	case vm.ArrayValue:
+		arr := make([]interface{}, len(val.Val))
+		for i, elem := range val.Val {
+			arr[i] = valueToInterface(elem)
+		}
+		return arr
+	case vm.ObjectValue:
+		obj := make(map[string]interface{}, len(val.Val))
+		for k, elem := range val.Val {
+			obj[k] = valueToInterface(elem)
+		}
+		return obj
+	default:
+		return nil
 	}
 }
 
